@@ -30,10 +30,9 @@ def run(ctx, scenarios, name):
     for k in range(shards):
         out = ctx.path("toktrace-%s-%d.ndjson" % (name, k))
         files.append(out)
-        procs.append(subprocess.Popen([drv, "tokens", "-scen", scen, "-out", out, "-shard", str(k), "-shards", str(shards)], cwd=ctx.scratch,
-                                      env=ctx.env, stdout=subprocess.PIPE, stderr=subprocess.PIPE, text=True))
+        procs.append(ctx.spawn([drv, "tokens", "-scen", scen, "-out", out, "-shard", str(k), "-shards", str(shards)]))
     for p in procs:
-        o_, e = p.communicate(timeout=3000)
+        rc_, o_, e = ctx.wait(p)
         if p.returncode != 0:
             raise Undecided("tokens driver failed: " + (e or o_)[-1500:])
     files = [f for f in files if os.path.getsize(f) > 0]
